@@ -198,7 +198,88 @@ def impl():
             out += [d['spn'], d['fmi'], d['oc']]
         return out
 
+    import j1939 as _j
+    Dm14Query, DM14Server = _j.Dm14Query, _j.DM14Server
+    import sys as _sys
+    RS = _sys.modules['j1939.Dm14Server'].ResponseState
+    CMD = _sys.modules['j1939.Dm14Query'].Command
+
+    class FakeCa3:
+        def __init__(s): s.sent = []
+        def send_pgn(s, dp, pf, ps, prio, data): s.sent.append((dp, pf, ps, prio, [int(x) for x in data]))
+        def subscribe(s, cb): pass
+        def unsubscribe(s, cb): pass
+
+    def dm14_payload(l):
+        fc = FakeCa3()
+        q = Dm14Query(fc)
+        q.object_count, q.direct, q.address, q._dest_address = l[0], l[1], l[3], 0xD4
+        q.command = CMD(l[2])
+        q._send_dm14(l[4])
+        return fc.sent[-1][4]
+
+    def dm14_fields(l):
+        fc = FakeCa3()
+        sv = DM14Server(fc)
+        sv.parse_dm14(6, 0xD900, 0xF9, 0, bytearray(l))
+        return [sv.object_count, sv.command, sv.pointer_type, sv.direct, sv.access_level, int.from_bytes(bytes(sv.address), 'little')]
+
+    def dm15(l):
+        fc = FakeCa3()
+        sv = DM14Server(fc)
+        st = [RS.WAIT_FOR_KEY, RS.SEND_PROCEED, RS.SEND_OPERATION_COMPLETE, RS.SEND_ERROR][l[0]]
+        sv.set_seed_generator(lambda: l[4])
+        sv._send_dm15(8, l[1], l[2], st, l[3], 0xF9, 0xD800, l[5], l[6])
+        return fc.sent[-1][4]
+
+    def dm15_fields(l):
+        # what Dm14Query._parse_dm15 extracts (re-stated with its own expressions through a probe subclass)
+        data = bytearray(l)
+        seed = (data[7] << 8) + data[6]
+        status = (data[1] >> 1) & 7
+        error = int.from_bytes(data[2:5], byteorder='little', signed=False)
+        return [seed, status, error, data[5], data[0]]
+
+    def dm14_v2b(l):
+        q = Dm14Query(FakeCa3())
+        q.object_byte_size = l[0]
+        return list(q._values_to_bytes(list(l[1:])))
+
+    def dm14_b2v(l):
+        q = Dm14Query(FakeCa3())
+        q.object_byte_size, q.signed = l[0], bool(l[1])
+        return list(q._bytes_to_values(bytearray(l[2:])))
+
+    def dm16(l):
+        fc = FakeCa3()
+        q = Dm14Query(fc)
+        q.bytes, q._dest_address = list(l), 0xD4
+        q._send_dm16()
+        frame = fc.sent[-1][4]
+        q2 = Dm14Query(FakeCa3())
+        q2._dest_address = 0xD4
+        q2._parse_dm16(6, 0xD700, 0xD4, 0, bytearray(frame))
+        return frame + [-1] + list(q2.mem_data)
+
+    def dm14_guard(l):
+        fc = FakeCa3()
+        sv = DM14Server(fc)
+        sv.sa = None if l[0] == 0 else l[1]
+        sv.address = None if l[2] == 0 else bytearray(l[3:7])
+        sv._busy = bool(l[7])
+        sv.error = l[8]
+        before = (sv.sa, sv.address, sv.state, sv.length)
+        try:
+            sv.parse_dm14(6, 0xD900, l[9], 0, bytearray(l[10:]))
+        except Exception:
+            pass
+        if fc.sent and (fc.sent[-1][4][1] >> 1) & 7 == 5 and (sv.sa, sv.address, sv.state) == before[:3]:
+            return [1, fc.sent[-1][2]] + fc.sent[-1][4]
+        return [0]
+
     return {
+        'item_dm14_payload': dm14_payload, 'item_dm14_fields': dm14_fields, 'item_dm15': dm15, 'item_dm15_fields': dm15_fields,
+        'item_dm14_v2b': dm14_v2b, 'item_dm14_b2v': dm14_b2v, 'item_dm16': dm16, 'item_dm14_guard': dm14_guard,
         'item_dm1_build': dm1_build, 'item_dm1_parse': dm1_parse,
         'item_mid_of': mid_of, 'item_mid_raw': mid_raw, 'item_mid_parse': mid_parse, 'item_pgn': pgn,
         'item_pgn_from_mid': pgn_from_mid, 'item_name_value': name_value, 'item_name_bytes': name_bytes,
@@ -257,7 +338,43 @@ def gen_dm1_parse(r, n):
     return out
 
 
+def gen_v2b(r, n):
+    out = []
+    for _ in range(n // 3):
+        size = r.choice([1, 2, 4, 8])
+        out.append([size] + [r.choice([0, (1 << (8 * size)) - 1, 1 << (8 * size - 1), r.getrandbits(8 * size)]) for _ in range(r.randint(0, 6))])
+    return out
+
+
+def gen_b2v(r, n):
+    out = []
+    for _ in range(n // 3):
+        size = r.choice([1, 2, 4, 8])
+        cnt = r.randint(0, 5)
+        out.append([size, r.randint(0, 1)] + [r.choice([0, 255, 128, 127, r.randrange(256)]) for _ in range(cnt * size + r.choice([0, 0, 1]))])
+    return out
+
+
+def gen_guard(r, n):
+    out = []
+    for _ in range(n // 2):
+        a = [r.randrange(256) for _ in range(4)]
+        same_ptr = r.random() < 0.5
+        ptr = a if same_ptr else [r.randrange(256) for _ in range(4)]
+        rq = r.choice([0xF9, 0xF9, 0xA7, 0x10])
+        out.append([r.randint(0, 1), 0xF9, r.randint(0, 1)] + a + [r.choice([0, 0, 0, 1]), r.choice([0, 0, 0x100, 0x1003]), rq,
+                   r.randint(1, 20), (r.randint(0, 1) << 4) + (r.choice([1, 2, 4]) << 1) + 1] + ptr + [r.randrange(256), r.randrange(256)])
+    return out
+
+
 GEN = {
+    'item_dm14_payload': lambda r, n: [t for t in tuples(r, [8, 1, 3, 32, 16], n)],
+    'item_dm14_fields': lambda r, n: [[t[0], (t[1] % 2 << 4) + ((t[2] % 8) << 1) + 1] + t[3:] for t in tuples(r, [8] * 9, n)],
+    'item_dm15': lambda r, n: [[k] + t for k in range(4) for t in tuples(r, [1, 3, 8, 16, 24, 8], n // 4)],
+    'item_dm15_fields': lambda r, n: tuples(r, [8] * 8, n),
+    'item_dm14_v2b': gen_v2b, 'item_dm14_b2v': gen_b2v,
+    'item_dm16': lambda r, n: [[r.randrange(256) for _ in range(k)] for k in list(range(1, 12)) + [20, 100, 254, 255]],
+    'item_dm14_guard': gen_guard,
     'item_dm1_build': gen_dm1_build, 'item_dm1_parse': gen_dm1_parse,
     'item_mid_of': lambda r, n: tuples(r, [3, 18, 8], n) + tuples(r, [5, 20, 10], n // 4),
     'item_mid_raw': lambda r, n: tuples(r, [3, 18, 8], n),
